@@ -26,7 +26,7 @@ import proggen          # noqa: E402
 import ast2coq          # noqa: E402
 
 RID = "R"
-REQUIRES = "Spec.PDP11 Spec.Arith Model.Asm Run.RRun"
+REQUIRES = "Spec.PDP11 Spec.Arith Model.Asm Run.RRun"  # RRun pulls in Model.AsmT / Model.AsmRel
 PRELUDE = "Open Scope string_scope.\nOpen Scope Z_scope."
 WHY = {1: "label-not-laid-out-yet", 2: "dot-of-a-later-definition", 3: "link-inside-repeat", 4: "base-set-inside-repeat",
        5: "end-inside-block", 6: "size-guard", 7: "other", 8: "own-base-in-include", 9: "include-inside-repeat",
@@ -89,6 +89,10 @@ def special_cases():
     one("mov a+2(r0), r1\nmov @a+2(r0), -(sp)\na = 10\n")            # hoisting
     one(".link 1000\n.link 2000\n")                                  # second .link
     one("nop\n.link 2000\nl: .word l\n")                             # .link after code: base = 2000
+    one("mov #free, r2\n.repeat (free-code)/2 { mov (r1)+, (r2)+ }\nsob r0, .\ncode: mov r5, (r0)\nclr r1\nfree: .word code\n")   # 13colours
+    one("s: .repeat e-s-4 { nop }\n.word 1\ne: nop\n")                   # the count depends on its own size: no cancellation
+    one(".repeat b-a { .byte 1 }\n.even\na: .word 1\n.blkb 3\nb: nop\n")       # cancels through a constant fill
+    one(".repeat b-a { .byte 1 }\na: .byte 1\n.even\nb: nop\n")               # does not: .even between a and b at an unknown address
     one(".blkb l\nl: nop\n")                                         # count needs a later label: outside the subset
     one(".link l\nl: nop\n")                                         # base through a label: outside the subset
     one("push r0\npop r1\ncall @#100\nret\nreturn\nccc\nscc\n")
@@ -156,6 +160,15 @@ def explain(code):
 def interpret(rep, origin, files, fs, o, code, prefix=""):
     """record one judged case; returns True when the model produced a verdict (inside the subset)"""
     inp = {"files": files, "fs": fs_json(fs)}
+    if code & 8192:
+        code -= 8192
+        rep.count(prefix + "through-relative-layout(AsmRel)")
+    if code & 4096:
+        code -= 4096
+        rep.count(prefix + "in-class-R_supported")
+        if code & 4 and WHY.get(code >> 5) != "size-guard":
+            rep.disagree(prefix + "Asm.assemble answers Unsupported on a program of the class of R_supported (contradicts the theorem)", inp,
+                         model=explain(code))
     if code & 8:
         rep.disagree(prefix + "Asm.assemble crashed or ran out of fuel (never expected)", inp, model=explain(code), impl=o.get("outcome"))
         return False
@@ -259,8 +272,145 @@ def explore_corpus(rep):
     return inside, info
 
 
+# ---------------------------------------------------------------------------------------------
+# the whole-program laws, four ways: model(p), model(T p), impl(p), impl(T p)
+import re
+
+_DOT = re.compile(r"(?<![\w$.])\.(?![\w.])")
+
+
+def _flat_starts(items):
+    out, k = [], 0
+    for terms, _ in items:
+        out.append(k)
+        k += len(terms)
+    out.append(k)
+    return out
+
+
+def _span(tok):
+    return tok.ctx_start.pos, tok.ctx_end.pos
+
+
+def law_candidates(rng, text, conv, fs):
+    """[(law name, Coq law term, source 1, source 2)] -- the transformations applied to the TEXT, at positions taken
+    from the parser's own spans; the Gallina side (Model/AsmT.apply_law) gets the positions only"""
+    T = ast2coq._mods()[0]
+    items = conv.items
+    starts = _flat_starts(items)
+    out = []
+    n = len(items)
+    # move a definition
+    defs = [i for i, (terms, tok) in enumerate(items) if isinstance(tok, T.Assignment) and not isinstance(tok.target, T.InstructionPointer)
+            and len(terms) == 1 and not _DOT.search(tok.value.text())]
+    if defs and n >= 2:
+        i = rng.choice(defs)
+        k = rng.choice([x for x in range(n + 1) if x not in (i, i + 1)])          # boundary in the original numbering
+        a, b = _span(items[i][1])
+        stmt = text[a:b]
+        pos = _span(items[k][1])[0] if k < n else len(text)
+        if pos <= a:
+            t2 = text[:pos] + stmt + "\n" + text[pos:a] + text[b:]
+        else:
+            t2 = text[:a] + text[b:pos] + ("" if text[:pos].endswith("\n") else "\n") + stmt + "\n" + text[pos:]
+        j = starts[k] if k < i else starts[k] - 1
+        out.append(("move", "(LMove %d %d)" % (starts[i], j), text, t2))
+    # unroll a repeat with a literal count
+    reps = [i for i, (terms, tok) in enumerate(items) if isinstance(tok, T.Instruction) and tok.name.name.lower() in (".repeat", "repeat")
+            and len(tok.operands) == 2 and isinstance(tok.operands[0], T.Number) and isinstance(tok.operands[1], T.CodeBlock)
+            and 0 <= tok.operands[0].value <= 40 and not tok.operands[0].invalid_base8]
+    if reps:
+        i = rng.choice(reps)
+        tok = items[i][1]
+        body = tok.operands[1].insns
+        btxt = text[body[0].ctx_start.pos:body[-1].ctx_end.pos] if body else ""
+        a, b = _span(tok)
+        t2 = text[:a] + "\n".join([btxt] * tok.operands[0].value) + text[b:]
+        out.append(("unroll", "(LUnroll %d)" % starts[i], text, t2))
+    # insert_file -> .byte
+    ins = [i for i, (terms, tok) in enumerate(items) if terms[0].startswith("Insert [") and terms[0] != "Insert []"]
+    if ins:
+        i = rng.choice(ins)
+        data = [int(x) for x in items[i][0][0][len("Insert ["):-1].split(";")]
+        a, b = _span(items[i][1])
+        t2 = text[:a] + ".byte " + ", ".join("%d." % v for v in data) + text[b:]
+        out.append(("insert", "(LInsert %d)" % starts[i], text, t2))
+    # an End before position k
+    k = rng.randrange(0, n + 1)
+    pos = _span(items[k][1])[0] if k < n else len(text)
+    pre = text[:pos] + ("" if pos == 0 or text[:pos].endswith("\n") else "\n")
+    out.append(("cut", "(LCut %d)" % starts[k], pre + ".end\n" + text[pos:], pre + ".end\n"))
+    return out
+
+
+def explore_laws(rep, tier, seed):
+    rng = random.Random(seed ^ 0x1A35)
+    n = 100 if tier == "quick" else 1500
+    pool = [c for c in special_cases() if "\n" in c[1][0][1]] + gen_cases(rng, n)
+    prepared = []
+    for origin, files, fs in pool:
+        name, text = files[0]
+        conv = ast2coq.convert(name, text, fs=fs)
+        if conv.term is None or not conv.items:
+            rep.count("R:law:source-outside-subset")
+            continue
+        for law, lterm, t1, t2 in law_candidates(rng, text, conv, fs):
+            conv2 = ast2coq.convert(name, t2, fs=fs)
+            if conv2.term is None:
+                rep.count("R:law:%s:transformed-text-outside-subset" % law)
+                continue
+            prepared.append((law, lterm, conv.term, conv2.term, name, t1, t2, fs))
+    jobs = []
+    for law, lterm, p, p2, name, t1, t2, fs in prepared:
+        jobs.append((([(name, t1)],), {"fs": fs}))
+        jobs.append((([(name, t2)],), {"fs": fs}))
+    outs = impl.pmap("assemble", jobs)
+    terms, refs = [], []
+    for k, (law, lterm, p, p2, name, t1, t2, fs) in enumerate(prepared):
+        o1, o2 = outs[2 * k], outs[2 * k + 1]
+        rep.add_eval(2)
+        terms.append("(%s,\n %s,\n %s, %s, %s)" % (p, p2, lterm, obs_term(o1), obs_term(o2)))
+        refs.append(k)
+    codes = []
+    if terms:
+        res = C.run_case_files(RID + "law", REQUIRES + " Model.AsmT", PRELUDE, C.shard(terms, 20), judge_expr="map judge_law cases",
+                               cases_type="list law_case", timeout=1200)
+        codes = [c for sh in res for c in sh]
+    judged = collections.Counter()
+    for k, code in zip(refs, codes):
+        law, lterm, p, p2, name, t1, t2, fs = prepared[k]
+        inp = {"law": law + " " + lterm, "files": [[name, t1]], "transformed": [[name, t2]], "fs": fs_json(fs)}
+        if code & 4:
+            rep.count("R:law:%s:hypotheses-not-met" % law)
+            continue
+        if code & 32:
+            rep.count("R:law:%s:model-unsupported" % law)
+            continue
+        judged[law] += 1
+        rep.count("R:law:%s:judged" % law)
+        o1, o2 = outs[2 * k], outs[2 * k + 1]
+        rep.count("R:law:%s:%s" % (law, o1["outcome"]))
+        if o1["outcome"] == "ok":
+            rep.nontrivial(("R-law", law, o1["code"], t2))
+        if code & 1:
+            rep.disagree("R law stream: Asm.assemble differs from the implementation on the source or on the transformed source", inp,
+                         impl=[o1.get("outcome"), o2.get("outcome")])
+        if code & 8:
+            rep.disagree("R law stream: Model/AsmT.apply_law on the abstract program does not assemble like the converted transformed text "
+                         "(the Gallina and the textual transformation differ)", inp)
+        if code & 16:
+            rep.disagree("R law stream: the MODEL violates a law that Props/R.v proves (model or law_hyps out of step)", inp)
+        if code & 2:
+            rep.violate("r-law:" + law, "the real code assembles a program and its %s-transformed version differently although the hypotheses of "
+                        "the law (Props/R.v) hold" % law, inp, first={k2: o1.get(k2) for k2 in ("outcome", "base", "code")},
+                        second={k2: o2.get(k2) for k2 in ("outcome", "base", "code")})
+    rep.extra["R_law_cases_judged"] = dict(judged)
+    return dict(judged)
+
+
 def explore_r(rep, tier, seed):
     judged = explore_generated(rep, tier, seed)
+    laws = explore_laws(rep, tier, seed)
     inside, info = explore_corpus(rep)
     return judged, inside, info
 
@@ -273,10 +423,13 @@ if __name__ == "__main__":
     ap.add_argument("--seed", type=int, default=int(os.environ.get("VERIF_SEED", "1")))
     ap.add_argument("--no-corpus", action="store_true")
     ap.add_argument("--no-gen", action="store_true")
+    ap.add_argument("--no-laws", action="store_true")
     a = ap.parse_args()
     rep = C.Report("R", a.tier, a.seed)
     if not a.no_gen:
         print("generated/special programs judged in coqc:", explore_generated(rep, a.tier, a.seed))
+    if not a.no_laws:
+        print("law cases judged in coqc:", explore_laws(rep, a.tier, a.seed))
     if not a.no_corpus:
         inside, info = explore_corpus(rep)
         print("corpus programs inside the subset: %d of %d" % (inside, len(CORPUS)))
